@@ -32,11 +32,12 @@ COMPONENTS = {"real": ["jaxtyping decorator + array checks", "typeguard", "beart
 STYLES = [("new", "tg"), ("new", "bt"), ("new", "min"), ("old", "tg"), ("old", "bt"), ("old", "min")]
 
 
-def gen_family(r, sym_ok=True, ill_bias=0.5):
-    g = Gen(r, names=("a", "b", "c"), sizes=(0, 1, 2, 3, 4), var_names=("v",), allow_sym=False, max_tokens=3)
+def gen_family(r, sym_ok=True, ill_bias=0.5, var_names=("v",)):
+    g = Gen(r, names=("a", "b", "c"), sizes=(0, 1, 2, 3, 4), var_names=var_names, allow_sym=False, max_tokens=3)
     n = r.randrange(1, 6)
     pref = {"a": r.choice((1, 2, 3, 0)), "b": r.randrange(1, 5), "c": r.randrange(1, 4),
             "*v": tuple(r.choice((1, 2, 3)) for _ in range(r.randrange(0, 3))), "{k}": 2}
+    pref["*a"] = tuple(r.choice((1, 2)) for _ in range(r.randrange(0, 3)))  # '*a' and 'a' are different axes (separate namespaces)
     params = []
     for j in range(n):
         toks = g.dims(min_tokens=0)
@@ -83,7 +84,7 @@ def gen_family(r, sym_ok=True, ill_bias=0.5):
                 kinds.append("arraytype")
     # a second, consistent value set under a PERMUTED assignment (the sizes of a, b, c rotated): some siblings are called with
     # it, so that the same expression text is evaluated under memos with equal sizes in equal order but different names
-    rot = {"a": pref["b"], "b": pref["c"], "c": pref["a"], "*v": pref["*v"], "{k}": 2}
+    rot = {"a": pref["b"], "b": pref["c"], "c": pref["a"], "*v": pref["*v"], "*a": pref["*a"], "{k}": 2}
     vals2 = []
     for p in params + [ret]:
         vt = "np" if p["atype"] == "np" else "duck"
